@@ -20,17 +20,42 @@ func Deref(v any) (any, bool) {
 }
 
 // DerefAll recursively follows pointer chains until a non-pointer value is
-// reached. A nil input or nil pointer at any level yields nil.
+// reached. A nil input or nil pointer at any level yields nil, and so does a
+// chain that never ends (see [DerefChain]).
 func DerefAll(v any) any {
-	for v != nil {
+	end, _ := DerefChain(v)
+	return end
+}
+
+// cycleCheckAfter is the number of pointer hops followed before the visited
+// addresses are recorded; ordinary inputs never get that deep.
+const cycleCheckAfter = 8
+
+// DerefChain follows a chain of pointers (through the interfaces they point
+// to) until it reaches a non-pointer value or a nil, and returns that end.
+// A chain that comes back to an address it already visited has no end
+// (var a any; a = &a): it yields (nil, true) instead of looping forever.
+func DerefChain(v any) (end any, cyclic bool) {
+	var seen map[uintptr]struct{}
+	for hops := 0; v != nil; hops++ {
 		rv := reflect.ValueOf(v)
 		if rv.Kind() != reflect.Pointer {
-			return v
+			return v, false
 		}
 		if rv.IsNil() {
-			return nil
+			return nil, false
+		}
+		if hops >= cycleCheckAfter {
+			if seen == nil {
+				seen = make(map[uintptr]struct{})
+			}
+			addr := rv.Pointer()
+			if _, again := seen[addr]; again {
+				return nil, true
+			}
+			seen[addr] = struct{}{}
 		}
 		v = rv.Elem().Interface()
 	}
-	return nil
+	return nil, false
 }
